@@ -142,6 +142,10 @@ class Evaluator:
             if op == ",":
                 self.ev(e["lhs"], env)
                 return self.ev(e["rhs"], env)
+            if op in ("+", "-"):        # index arithmetic: `expr[expr.get_size() - 1]`
+                a, b = self.ev(e["lhs"], env), self.ev(e["rhs"], env)
+                if isinstance(a, int) and isinstance(b, int) and not isinstance(a, bool) and not isinstance(b, bool):
+                    return a + b if op == "+" else a - b
             raise Cannot("operator %s" % op)
         if k == "cond":
             return self.ev(e["a"] if self.truth(self.ev(e["c"], env)) else e["b"], env)
@@ -319,6 +323,8 @@ class Evaluator:
                 return None
             if name == "empty":
                 return False
+            if name == "get_size" and r.children:
+                return len(r.children)      # the node whose clause is being evaluated: as many operands as the row has
             return Atom(("expr." + name, r.name) + tuple(self.vkey(self.ev(a, env)) for a in args))
         if isinstance(r, TypeV):
             if name == "is":
